@@ -424,3 +424,59 @@ package http
 //@   ghost update @db.IsValidSQLiteData: seenDB = true
 //@   assert @db.IsValidSQLiteData: [classifies-body-prefix] arg0 == peek
 //@   assert @s.store.ReadFrom: [sqlite-only] seenDB && isDB && arg0 == bufReader
+//
+// ---- C01: non-deterministic SQL is rewritten before a write is replicated ---------------------------
+// On every endpoint that hands statements to the cluster, sql.Process ran successfully on exactly
+// those statements, with random/time rewriting switched on unless the request asked otherwise
+// (the property's own exclusions: noparse, norwrandom, norwtime); reads are rewritten only when
+// they go through the log (level STRONG).
+//@ func (*Service) execute
+//@   ghost var rw bool = false
+//@   ghost var rwR bool = false
+//@   ghost var rwT bool = false
+//@   ghost var rwS slice = nilslice
+//@   ghost update @sql.Process: rw = (result == nil)
+//@   ghost update @sql.Process: rwR = arg1
+//@   ghost update @sql.Process: rwT = arg2
+//@   ghost update @sql.Process: rwS = arg0
+//@   assert @s.proxy.Execute: [rewritten-before-replication] arg1 != nil && arg1.Request != nil && (qpFlag(qp, "noparse") || (rw && rwR == !qpFlag(qp, "norwrandom") && rwT == !qpFlag(qp, "norwtime") && arg1.Request.Statements == rwS))
+//@ func (*Service) queuedExecute
+//@   ghost var rw bool = false
+//@   ghost var rwR bool = false
+//@   ghost var rwT bool = false
+//@   ghost var rwS slice = nilslice
+//@   ghost update @sql.Process: rw = (result == nil)
+//@   ghost update @sql.Process: rwR = arg1
+//@   ghost update @sql.Process: rwT = arg2
+//@   ghost update @sql.Process: rwS = arg0
+//@   assert @s.stmtQueue.Write: [rewritten-before-queueing] rw && rwR == !qpFlag(qp, "norwrandom") && rwT == !qpFlag(qp, "norwtime") && arg0 == rwS
+//@ func (*Service) handleRequest
+//@   ghost var rw bool = false
+//@   ghost var rwR bool = false
+//@   ghost var rwT bool = false
+//@   ghost var rwS slice = nilslice
+//@   ghost update @sql.Process: rw = (result == nil)
+//@   ghost update @sql.Process: rwR = arg1
+//@   ghost update @sql.Process: rwT = arg2
+//@   ghost update @sql.Process: rwS = arg0
+//@   assert @s.proxy.Request: [rewritten-before-replication] arg1 != nil && arg1.Request != nil && (qpFlag(qp, "noparse") || (rw && rwR == !qpFlag(qp, "norwrandom") && rwT == !qpFlag(qp, "norwtime") && arg1.Request.Statements == rwS))
+//@ func (*Service) handleQuery
+//@   ghost var rw bool = false
+//@   ghost var rwR bool = false
+//@   ghost var rwT bool = false
+//@   ghost var rwS slice = nilslice
+//@   ghost update @sql.Process: rw = (result == nil)
+//@   ghost update @sql.Process: rwR = arg1
+//@   ghost update @sql.Process: rwT = arg2
+//@   ghost update @sql.Process: rwS = arg0
+//@   assert @s.proxy.Query: [strong-reads-rewritten] arg1 != nil && arg1.Request != nil && arg1.Level == qpLevel(qp) && (qpFlag(qp, "noparse") || (rw && arg1.Request.Statements == rwS && (qpLevel(qp) == proto.ConsistencyLevel_STRONG ==> (rwR == !qpFlag(qp, "norwrandom") && rwT == !qpFlag(qp, "norwtime")))))
+//@ func (*Service) handleLoad
+//@   ghost var rw bool = false
+//@   ghost var rwR bool = false
+//@   ghost var rwT bool = false
+//@   ghost var rwS slice = nilslice
+//@   ghost update @?sql.Process: rw = (result == nil)
+//@   ghost update @?sql.Process: rwR = arg1
+//@   ghost update @?sql.Process: rwT = arg2
+//@   ghost update @?sql.Process: rwS = arg0
+//@   assert @s.proxy.Execute: [rewritten-before-replication] arg1 != nil && arg1.Request != nil && (qpFlag(qp, "noparse") || (rw && rwR == !qpFlag(qp, "norwrandom") && rwT == !qpFlag(qp, "norwtime") && arg1.Request.Statements == rwS))
